@@ -85,6 +85,26 @@ func (c *Ctx) ruleT3() {
 			}
 			if len(tests) == 0 {
 				if hc := c.logIDCheckedByHelper(f, d); hc != nil {
+					start := after(call)
+					if cc, ok := call.(ssa.CallInstruction); ok {
+						if st0, _, tested := okStart(cc); tested {
+							start = st0
+						}
+					}
+					early := func(in ssa.Instruction) bool {
+						st, ok := in.(*ssa.Store)
+						if !ok {
+							return false
+						}
+						if _, isField := st.Addr.(*ssa.FieldAddr); !isField {
+							return false
+						}
+						return d[st.Val] || st.Val == fv
+					}
+					if hit, tr := findPath(f, start, func(in ssa.Instruction) bool { return in == ssa.Instruction(hc) }, early, nil); hit != nil {
+						c.bad("T3", cons, hit.Pos(), "the fetched log is stored where the idle flush takes it (a field of the replicator) before its entries' log ids are compared with the store's: the comparison still fails the fetch step, but the refused log is already in the buffer and is joined with the rest — Join skips its entries and adopts it as a head", c.trailStr(tr)...)
+						continue
+					}
 					if hit, tr := skippable(func(in ssa.Instruction) bool { return in == ssa.Instruction(hc) }); hit != nil {
 						c.bad("T3", cons, hit.Pos(), "the fetch step can return successfully without having compared the log id of what it fetched with the store's: what goes round the comparison (a kind of queue item, a flag) is merged unchecked, and an entry of ANOTHER database ends up among this log's heads", c.trailStr(tr)...)
 					} else {
@@ -134,6 +154,31 @@ func (c *Ctx) ruleT3() {
 					}
 				})
 				if len(enum) > 0 {
+					// … and it comes before the fetched log is handed on: stored into a field (the
+					// buffer the idle test flushes) before the comparison, a refused log is still
+					// joined when its worker is the last to finish
+					handOver := func(in ssa.Instruction) bool {
+						st, ok := in.(*ssa.Store)
+						if !ok {
+							return false
+						}
+						if _, isField := st.Addr.(*ssa.FieldAddr); !isField {
+							return false
+						}
+						return d[st.Val] || st.Val == fv
+					}
+					start := after(call)
+					if cc, ok := call.(ssa.CallInstruction); ok {
+						if st0, _, tested := okStart(cc); tested {
+							start = st0
+						}
+					}
+					if hit, tr := findPath(f, start, func(in ssa.Instruction) bool { return enum[in] }, handOver, nil); hit != nil && !viol {
+						viol = true
+						c.bad("T3", cons, hit.Pos(), "the fetched log is stored where the idle flush takes it (a field of the replicator) before its entries' log ids are compared with the store's: the comparison still fails the fetch step, but the refused log is already in the buffer and is joined with the rest — Join skips its entries and adopts it as a head", c.trailStr(tr)...)
+					}
+				}
+				if len(enum) > 0 && !viol {
 					if hit, tr := skippable(func(in ssa.Instruction) bool { return enum[in] }); hit != nil {
 						viol = true
 						c.bad("T3", cons, hit.Pos(), "the fetch step can return successfully without having compared the log id of what it fetched with the store's: what goes round the comparison (a kind of queue item, a flag) is merged unchecked, and an entry of ANOTHER database ends up among this log's heads", c.trailStr(tr)...)
